@@ -23,7 +23,7 @@ PROPERTIES = {
               "NOT counted as discharged.",
         note="floats as exact reals; in-house algebra normaliser and loader transformations trusted (canary + numeric guard on every run); LDA "
              "correlation inside PBE correlation taken by contract (modular); generic gradient; side conditions n > 0, |zeta| < 1",
-        modules=["contracts.c02"],
+        modules=["contracts.c02", "contracts.c02_modular"],
         level="proof",
         trusted_base=BASE_TRUST + ["in-house exact-algebra normaliser (engine A)", "mpmath (refutation witnesses, constant signs)"],
         assumptions=["IEEE rounding is out of scope (reals)",
